@@ -37,7 +37,8 @@ Proof.
   destruct (inst_of T <=? horizon now) eqn:E2; [|reflexivity].
   apply Z.leb_gt in E1.
   rewrite Z.quot_div_nonneg by (unfold US; lia).
-  destruct ((inst_of T - now) mod US =? 0); reflexivity.
+  (* robust against re-arrangements of the rounding step: both sides are compared arithmetically *)
+  destruct ((inst_of T - now) mod US =? 0) eqn:E3; cbn [negb]; try reflexivity; f_equal; lia.
 Qed.
 
 (* (1c) neither cron nor time: nothing to send *)
